@@ -15,6 +15,7 @@ cases = {
   "many peers of the domain on one line": (None, "node1.corp.test", ["local node1.corp.test",
       "peers alpha.corp.test bravo.corp.test charlie.corp.test delta.corp.test echo.corp.test foxtrot.corp.test", "witness golf.corp.test"]),
   "keyword inside a host name": ({"keywords": ["web", "corp"]}, "web01.corp.test", ["connect web01.corp.test ok", "web web01 corp"]),
+  "overlapping keywords on one line": ({"keywords": ["prod", "prod-db", "db", "prod-db-01"]}, "node1.corp.test", ["connect prod-db-01 via prod and db", "prod-db prod db"]),
   "addresses, macs and names mixed": ({"keywords": ["sekrit"]}, "db1.example.org", [
       "10.1.2.3 10.1.2.4 192.168.0.7 10.1.2.3 db1.example.org app2.example.org sekrit 52:54:00:aa:bb:cc 52:54:00:aa:bb:cd",
       "fe80::5054:ff:feaa:bbcc 2001:db8::1 2001:db8::2 password=hunter2 app3.example.org 172.16.0.9",
